@@ -3,7 +3,7 @@
 From Coq Require Import List Bool Arith NArith ZArith Lia Sorting.Sorted.
 Import ListNotations.
 From C13 Require Import Model ProofsGlob ProofsKmp ProofsWild ProofsSearch ProofsTable ProofsSealed.
-From C13 Require Import ModelBlock ProofsBlock ProofsProvider ProofsWriter.
+From C13 Require Import ModelBlock ProofsBlock ProofsProvider ProofsWriter ProofsActive.
 
 (* The executable specification [glob] (what every case is judged against) is the declarative
    glob: text terms stand for themselves, every '*' for an arbitrary string. *)
@@ -218,6 +218,32 @@ Proof.
 Qed.
 Print Assumptions C13_provider_get_token.
 
+(* Active TokenList. [hash t] = worker owning token t, [fl t] = field length of token t (a token
+   is always split the same way), every Append = (arrival order of the workers' results, batch):
+   after ANY sequence of Append calls whose batches are duplicate-free (the bulk collector's
+   guarantee) and whose arrival orders name every worker once: the tokens in TID order [toks] are
+   duplicate-free and are exactly the tokens ever appended; GetValByTID(tid) = value of the tid-th
+   of them; FieldTIDs[f] = the TIDs (ascending) of exactly the tokens whose field is f; the
+   provider pattern.Search receives for field f (FirstTID = 1, LastTID = len, unordered) hands out
+   the token sequence [ap_dict st f] = the values of f's distinct tokens - the [first = 1, dict]
+   that C13_search_is_scan quantifies over. *)
+Theorem C13_active_provider_exact : forall (hash fl : bytes -> nat) (hist : list (list nat * list bytes)),
+  Forall (fun ab => NoDup (fst ab) /\ (forall t, In t (snd ab) -> In (hash t) (fst ab)) /\ NoDup (snd ab)) hist ->
+  let st := tl_run hash tl_empty (map (fun ab => (fst ab, map (fun t => (t, fl t)) (snd ab))) hist) in
+  let toks := tl_known st in
+  let fld t := field_of (t, fl t) in
+  let val t := value_of (t, fl t) in
+  NoDup toks /\
+  (forall t, In t toks <-> exists ab, In ab hist /\ In t (snd ab)) /\
+  tl_vals st = [] :: map val toks /\
+  (forall tid, (1 <= tid <= Z.of_nat (length toks))%Z ->
+     tl_get_val st tid = Some (val (nth (Z.to_nat (tid - 1)) toks []))) /\
+  (forall f, aget [] f (tl_fields st) = ftids f 1 (map (fun t => (t, fl t)) toks)) /\
+  (forall f, ap_dict st f = map val (filter (fun t => bytes_eqb (fld t) f) toks)) /\
+  (forall f tid, (1 <= tid <= ap_last_tid st f)%Z -> ap_get_token st f tid = Some (tok 1 (ap_dict st f) tid)).
+Proof. exact active_exact. Qed.
+Print Assumptions C13_active_provider_exact.
+
 (* ---------------------------------------------------------------- non-vacuity (blocks) *)
 
 Definition f_ := 102%N.
@@ -251,4 +277,30 @@ Example C13_block_separator_collision :
               e_min_val := []; e_max_val := [] |} in
   blen t = maxv 1 /\
   match unpack 1 P with UOk offs => get_val 1 e P offs 1 = Some [] | _ => False end.
+Proof. vm_compute. split; reflexivity. Qed.
+
+(* an Append history satisfying the hypotheses of C13_active_provider_exact: two workers, the
+   results of the second call arrive in the order [1; 0]; token f:a is repeated across calls and
+   gets one TID; field f has the values a, b and field g the value a *)
+Example C13_active_nonvacuous :
+  let c := 58%N in
+  let hash := fun t : bytes => match t with x :: _ => if N.eqb x f_ then 0 else 1 | [] => 0 end in
+  let hist := [([0; 1], [[f_; c; a]; [g_; c; a]]); ([1; 0], [[f_; c; a]; [f_; c; b]])] in
+  Forall (fun ab => NoDup (fst ab) /\ (forall t, In t (snd ab) -> In (hash t) (fst ab)) /\ NoDup (snd ab)) hist /\
+  let st := tl_run hash tl_empty (map (fun ab => (fst ab, map (fun t => (t, 1)) (snd ab))) hist) in
+  tl_vals st = [[]; [a]; [a]; [b]] /\ ap_dict st [f_] = [[a]; [b]] /\ ap_dict st [g_] = [[a]].
+Proof.
+  cbv zeta. split; [|vm_compute; repeat split].
+  unfold f_, g_, a, b.
+  repeat (first [apply Forall_nil | apply Forall_cons]); cbn [fst snd]; (split; [|split]).
+  all: try (solve [repeat constructor; simpl; intuition discriminate]).
+  all: simpl; intros t [<-|[<-|[]]]; vm_compute; auto.
+Qed.
+
+(* the duplicate-free-batch hypothesis is necessary: the same new token twice inside ONE Append
+   gets two TIDs (each worker scans its share before it updates its map) *)
+Example C13_active_duplicate_in_batch :
+  let c := 58%N in
+  let st := tl_run (fun _ => 0) tl_empty [([0], [([f_; c; a], 1); ([f_; c; a], 1)])] in
+  tl_vals st = [[]; [a]; [a]] /\ aget [] [f_] (tl_fields st) = [1; 2]%Z.
 Proof. vm_compute. split; reflexivity. Qed.
